@@ -217,6 +217,10 @@ def dec_descriptions(ctx):
     for it in pool:
         for sep in SEPS:
             yield [(dv(it[0]), dv(it[1]), it[2])], rend(it, sep)
+    # limits with more significant digits than the default decimal context (28): nothing may be rounded on the way
+    LONG = "1234567890123456789.123456789012"
+    for it in ((LONG, None, False), (None, LONG, False), (LONG, LONG, True), ("-" + LONG, LONG, False)):
+        yield [(dv(it[0]), dv(it[1]), it[2])], rend(it, SEPS[0])
     k = 0
     for a in pool:
         for b in pool:
@@ -258,9 +262,11 @@ def check_decimal_description(case):
     probes = set()
     for a, b in want:
         for x in (a, b):
-            if x is not None: probes.update([x, x - Decimal("0.01"), x + Decimal("0.01")])
-    for v in sorted(probes):
-        exp = any(n_item_contains(i, v) for i in want)
+            if x is not None:
+                probes.update([x, x - Decimal("0.01"), x + Decimal("0.01")])
+                if len(x.as_tuple().digits) > 28: probes.update([x - Decimal("0.000000000001"), x + Decimal("0.000000000001")])
+    for v in sorted(probes) + [str(p_) for p_ in sorted(probes)]:          # every probe as a Decimal and as the text denoting it
+        exp = any(n_item_contains(i, Decimal(v)) for i in want)
         try: r.validate("x", v); obs = True
         except errors.RangeValueError: obs = False
         except Exception as e: return {"expected": "verdict", "observed": "%s for %r" % (type(e).__name__, v)}
